@@ -151,6 +151,9 @@ theorem dropWhile_head_not {α} (p : α → Bool) (m : List α) (h : m.head?.all
     simp at h
     simp [List.dropWhile_cons, h]
 
+theorem strip_left (l x : List Ch) (hl : l.all pyIsSpace = true) : strip (l ++ x) = strip x := by
+  unfold strip; rw [dropWhile_all_append _ _ _ hl]
+
 theorem strip_pad (s l r : List Ch) (hl : l.all pyIsSpace = true) (hr : r.all pyIsSpace = true)
     (hne : s ≠ [])
     (hh : s.head?.all (fun c => !pyIsSpace c) = true) (ht : s.getLast?.all (fun c => !pyIsSpace c) = true) :
@@ -203,6 +206,15 @@ theorem fromString_pad (tbl : List Row) (s l r : List Ch) (e : Elem)
     have := strip_pad s [] [] rfl rfl hs.1 hs.2.1 hs.2.2
     simpa using this.symm
 
+/-- `from_string` sees its argument only through `strip` -/
+theorem fromString_congr_strip (tbl : List Row) (s s' : List Ch) (h : strip s = strip s') : fromString tbl s = fromString tbl s' := by
+  unfold fromString lookupKey
+  rw [h]
+
+theorem fromString_left_pad (tbl : List Row) (l x : List Ch) (hl : l.all pyIsSpace = true) :
+    fromString tbl (l ++ x) = fromString tbl x :=
+  fromString_congr_strip tbl _ _ (strip_left l x hl)
+
 /-! ### labels -/
 
 theorem dropWhile_snoc_keep {α} (p : α → Bool) (y : List α) (a : α) (ha : p a = false) :
@@ -219,6 +231,31 @@ theorem dropWhile_snoc_keep {α} (p : α → Bool) (y : List α) (a : α) (ha : 
       · exact hmem c hc hpc
     · refine ⟨b :: y, by simp [List.dropWhile_cons, hb], ?_⟩
       intro c hc _; exact hc
+
+theorem dropWhile_keep_from {α} (p : α → Bool) (u w : List α) (d : α) (hd : p d = false) :
+    ∃ u', (u ++ d :: w).dropWhile p = u' ++ d :: w := by
+  induction u with
+  | nil => exact ⟨[], by simp [List.dropWhile_cons, hd]⟩
+  | cons x u ih =>
+    obtain ⟨u', hu'⟩ := ih
+    by_cases hx : p x = true
+    · exact ⟨u', by simp [List.dropWhile_cons, hx, hu']⟩
+    · exact ⟨x :: u, by simp [List.dropWhile_cons, hx]⟩
+
+/-- stripping keeps everything up to and including the last non-blank character it is told about -/
+theorem strip_keep (p : List Ch) (d : Ch) (rest : List Ch) (hne : p ≠ [])
+    (hh : p.head?.all (fun c => !pyIsSpace c) = true) (hd : pyIsSpace d = false) :
+    ∃ rest', strip (p ++ d :: rest) = p ++ d :: rest' := by
+  unfold strip
+  have h1 : (p ++ d :: rest).dropWhile pyIsSpace = p ++ d :: rest := by
+    apply dropWhile_head_not
+    cases p with
+    | nil => exact absurd rfl hne
+    | cons a t => simpa using hh
+  rw [h1, List.reverse_append, List.reverse_cons]
+  obtain ⟨u', hu'⟩ := dropWhile_keep_from pyIsSpace rest.reverse p.reverse d hd
+  rw [show rest.reverse ++ [d] ++ p.reverse = rest.reverse ++ d :: p.reverse by simp, hu']
+  exact ⟨u'.reverse, by simp⟩
 
 theorem strip_cons (a : Ch) (t : List Ch) (ha : pyIsSpace a = false) :
     ∃ m, strip (a :: t) = a :: m ∧ ∀ c ∈ t, pyIsSpace c = false → c ∈ m := by
@@ -332,10 +369,11 @@ theorem fromString_label (tbl : List Row)
     rwa [digit_lower d hd] at this
   unfold fromString
   simp only [hkey, hnotdigit, hfs, hfn]
-  -- falls through to the label rule on the ORIGINAL string
+  -- falls through to the label rule on the STRIPPED string, which still starts with the letters and the digit
+  obtain ⟨rest', hst⟩ := strip_keep (a :: v') d rest (by simp) (by simp [letter_not_space a hla]) (digit_not_space d hd)
   unfold fromLabel letterPrefix
-  rw [show a :: v' ++ d :: rest = (a :: v') ++ d :: rest from rfl,
-    takeWhile_append_stop isLetterA (a :: v') d rest hlet (digit_not_letter d hd)]
+  rw [show a :: v' ++ d :: rest = (a :: v') ++ d :: rest from rfl, hst,
+    takeWhile_append_stop isLetterA (a :: v') d rest' hlet (digit_not_letter d hd)]
   simp only [strip_noSpace (a :: v') hne hlet, hfind]
   rfl
 
